@@ -1,0 +1,11 @@
+//go:build verif
+
+package sample
+
+import "github.com/honeycombio/refinery/types"
+
+// Verification hook for property C09 (export only, no behaviour):
+// the dynamic-sampler key of a trace, as newTraceKey(fields, useTraceLength).build computes it.
+func VerifC09TraceKey(fields []string, useTraceLength bool, trace *types.Trace) (string, int) {
+	return newTraceKey(fields, useTraceLength).build(trace)
+}
